@@ -372,6 +372,7 @@ type Contract struct {
 	Opts     map[string]string
 	Where    string
 	Lets     []SpecLet
+	UseLemmas []string
 }
 
 type SpecLet struct {
@@ -386,6 +387,7 @@ type SpecFunc struct {
 	Body    *SExpr
 	PkgPath string
 	Uninter bool // declared without body
+	Opaque  bool // uninterpreted in VCs; body given by a definitional axiom
 }
 
 type Lemma struct {
@@ -395,6 +397,7 @@ type Lemma struct {
 	PkgPath string
 	Where   string
 	Vars    []SVar
+	Uses    []string // earlier lemmas assumed in this lemma's proof
 }
 
 type Axiom struct {
@@ -413,6 +416,7 @@ type SpecFile struct {
 	Lemmas    []*Lemma
 	Axioms    []*Axiom
 	Pure      []string // pure observer function keys
+	Opaque    []string // spec functions kept uninterpreted in VCs (definition available as an axiom)
 	Ignore    []string
 	Uses      []string
 }
@@ -432,7 +436,7 @@ func splitProps(s string) (string, []string) {
 	return strings.TrimSpace(s[:m[0]]), ps
 }
 
-var keywords = map[string]bool{"func": true, "extern": true, "spec": true, "axiom": true, "lemma": true, "pure": true, "ignore": true,
+var keywords = map[string]bool{"opaque": true, "use": true, "func": true, "extern": true, "spec": true, "axiom": true, "lemma": true, "pure": true, "ignore": true,
 	"requires": true, "ensures": true, "modifies": true, "loop": true, "assert": true, "option": true, "import": true, "uses": true, "let": true, "package": true}
 
 // ParseSpecFile reads //@ lines. pkgPath is the import path the file belongs to ("" for lib files).
@@ -502,6 +506,17 @@ func ParseSpecFile(path, pkgPath string) (*SpecFile, error) {
 				return nil, fmt.Errorf("%s: import alias \"path\"", where)
 			}
 			sf.Imports[f[0]] = strings.Trim(f[1], "\"")
+		case "opaque":
+			sf.Opaque = append(sf.Opaque, strings.Fields(strings.ReplaceAll(rest, ",", " "))...)
+		case "use":
+			if cur == nil {
+				return nil, fmt.Errorf("%s: use outside func", where)
+			}
+			f := strings.Fields(strings.ReplaceAll(rest, ",", " "))
+			if len(f) < 2 || f[0] != "lemma" {
+				return nil, fmt.Errorf("%s: use lemma <name>...", where)
+			}
+			cur.UseLemmas = append(cur.UseLemmas, f[1:]...)
 		case "uses":
 			for _, u := range strings.Split(rest, ",") {
 				sf.Uses = append(sf.Uses, strings.TrimSpace(u))
